@@ -2,6 +2,7 @@ SPECIFICATION Spec
 CONSTANTS
   Docs <- Mixed
   K = 2
+  MaxPS = 1
   Dev = {}
 INVARIANTS SplitAgreement ParseAgreement
 CHECK_DEADLOCK FALSE
